@@ -326,6 +326,21 @@ Proof.
     apply (get_of_take _ _ (content s ++ out)); assumption.
 Qed.
 
+Lemma reterm_good s : inv s ->
+  exists s', reterm s = Some s' /\ inv s' /\ content s' = content s /\
+             num s' = num s /\ mem s' = mem s /\ (num s < mem s -> terminated s').
+Proof.
+  intros Hi. split_inv Hi. unfold reterm. destruct (num s <? mem s) eqn:E.
+  - destruct (inv_ptr s Hi ltac:(lia)) as (b & Hp & Hb & Hbuf). rewrite Hp.
+    destruct (put_ok (num s) 0 b ltac:(lia)) as (b' & -> & Hl' & Ht' & Hg').
+    eexists. split; [reflexivity|]. split; [apply inv_mk; lia|].
+    rewrite content_mk, Ht'. unfold content. rewrite Hbuf.
+    split; [reflexivity|]. split; [reflexivity|]. split; [reflexivity|].
+    intros _. apply terminated_mk; [lia|assumption].
+  - exists s. split; [reflexivity|]. split; [assumption|]. split; [reflexivity|].
+    split; [reflexivity|]. split; [reflexivity|]. lia.
+Qed.
+
 Lemma catv_good s out sc : inv s -> fits s (len out + 1) ->
   a_good s (catv s out sc)
          (fun r s' => r = Z.of_N (len out) /\ content s' = content s ++ out /\ terminated s')
@@ -352,7 +367,9 @@ Proof.
       do 4 eexists. split; [reflexivity|]. split; [assumption|]. rewrite He.
       split; [reflexivity|]. split; [|assumption]. rewrite Hc2. f_equal.
       rewrite <- Hc0. apply (reserve_content s0 s1); auto; unfold s0; cbn [num mem]; lia.
-    + cbn. do 4 eexists. split; [reflexivity|]. split; [assumption|]. rewrite He. auto.
+    + cbn [Z.eqb A_OMEMORY]. destruct (reterm_good s0 Hi0) as (s2 & -> & Hi2 & Hc2 & _).
+      do 4 eexists. split; [reflexivity|]. split; [assumption|]. rewrite He. split; [reflexivity|].
+      congruence.
   - (* fits in the spare room: one pass *)
     destruct (vsn_fits s out Hi ltac:(lia)) as (b2 & -> & Hi2 & Hc2 & Ht2).
     replace (if 0 <? len out then num s + len out else num s) with (num s + len out)
@@ -1232,16 +1249,17 @@ Proof.
   split; [apply inv_init|]. vm_compute. repeat split.
 Qed.
 
-(* for C07 (allocation failure), as found at read time: a failed a_str_catv reports 0 and keeps the
-   byte string, but the first vsnprintf pass has already overwritten the terminator with text *)
-Example ex_catv_failure_keeps_content_not_terminator :
+(* a refused growth in a_str_catv: 0 is returned, the byte string is kept and the terminator is
+   stored again over the text of the measuring pass (the code as found left "abc0123":
+   coq/C07/StrFaultProofs.v catv_fault_as_found_refuted) *)
+Example ex_catv_failure_keeps_content_and_terminator :
   let s := mkStr (Some [97;98;99;0;165;165;165;165]) 3 8 in
   terminated s /\
   exists s', catv s [48;49;50;51;52;53;54;55;56;57;65;66;67;68;69;70] [false]
              = Some (0%Z, s', [], [EvRealloc 8 24 false]) /\
-             content s' = content s /\ buf s' = [97;98;99;48;49;50;51;0] /\ ~ terminated s'.
+             content s' = content s /\ buf s' = [97;98;99;0;49;50;51;0] /\ terminated s'.
 Proof.
   split; [split; [cbn; lia|reflexivity]|].
   eexists. split; [vm_compute; reflexivity|]. split; [reflexivity|]. split; [reflexivity|].
-  intros [_ H]. vm_compute in H. discriminate.
+  split; [cbn; lia|reflexivity].
 Qed.
